@@ -58,7 +58,13 @@ func init() {
 	Register("C20-cases", func(c *Ctx) {
 		for _, p := range pools {
 			// histories: distinct values up to and across the limit, with repetitions
-			for _, n := range []int{0, 1, 2, p.max - 1, p.max, p.max + 1, p.max + 5} {
+			sizes := []int{0, 1, 2, p.max - 1, p.max, p.max + 1, p.max + 5}
+			if p.max > 1000 && !c.Thorough() {
+				// the extracted pool is a list: a history of 16384 adds costs 10^8 comparisons; one history
+				// across the limit shows every index up to it
+				sizes = []int{0, 1, 2, p.max + 1}
+			}
+			for _, n := range sizes {
 				vals := make([]int64, n)
 				for i := range vals {
 					vals[i] = int64(i + 1)
@@ -67,7 +73,11 @@ func init() {
 			}
 			// a full pool, then values that are already in it (must be found, not rejected) and a new one
 			if p.name != "register" && p.name != "function" && p.name != "native" {
-				for _, again := range []int{1, p.max / 2, p.max} {
+				agains := []int{1, p.max / 2, p.max}
+				if p.max > 1000 && !c.Thorough() {
+					agains = []int{p.max / 2}
+				}
+				for _, again := range agains {
 					vals := make([]int64, 0, p.max+3)
 					for i := 1; i <= p.max; i++ {
 						vals = append(vals, int64(i))
